@@ -298,6 +298,10 @@ func (r *FileRestorer) updateImports() error {
 
 	// conflict returns true if the provided name already exists in the packageNames list
 	conflict := func(name string) bool {
+		if name == "" {
+			// dot and anonymous imports (and the cgo import "C") bind no name
+			return false
+		}
 		for _, n := range r.packageNames {
 			if name == n {
 				return true
